@@ -144,12 +144,20 @@ func init() {
 				ctx.Sample(map[string]interface{}{"entry": entry, "family": in.Family, "text": fw.Trim(in.Text, 200), "scanners_started": started, "gauge_after": after})
 			}
 			if i%256 == 0 {
-				// cross-check the gauge against the goroutine census
-				n, _ := scannerCensus()
+				// cross-check the gauge against the goroutine census: every scanner the census shows
+				// blocked in a channel send must be counted by the gauge (a scanner that is just
+				// starting or just returning is in the census but legitimately not in the gauge)
+				_, states := scannerCensus()
 				ctx.Obs("census_taken", 1)
-				if int64(n) != after {
+				blocked := int64(0)
+				for _, st := range states {
+					if strings.HasPrefix(st, "chan send") {
+						blocked++
+					}
+				}
+				if blocked > after {
 					return fw.Result{Verdict: fw.Violated, Key: "census-disagrees-with-gauge", Case: in,
-						Msg: fmt.Sprintf("census shows %d scanner goroutines, gauge says %d", n, after)}
+						Msg: fmt.Sprintf("census shows %d scanner goroutines blocked in chan send, gauge says %d live: %v", blocked, after, states)}
 				}
 			}
 			if after > before {
